@@ -30,11 +30,12 @@ TECHNIQUE = ("runtime monitor: failure events injected at every event-loop itera
 LEVEL_TEXT = (
     "Baseline session (connect, send, heartbeat at 70 s, two sends, heartbeat at 140 s, disconnect, 200 s of silence) for the real "
     "UDPTunnel (also with route_back), TCPTunnel and SecureTunnel (against a scripted secure server built on the reference "
-    "crypto) with auto-reconnect on and off, on the virtual loop against a scripted gateway. Failure events "
+    "crypto) with auto-reconnect on and off, also after two disconnect()/connect() lives of the same tunnel object and as a "
+    "second tunnel object on the same XKNX after a first one was disconnected (faults then start in the first one's life), on the virtual loop against a scripted gateway. Failure events "
     "{server DisconnectRequest (single / duplicated / with the next ConnectRequests unanswered / with the next ConnectResponse 0.7 s late), heartbeat unanswered x4 / x3, "
     "ACKs dropped x2 / x1, TCP connection lost, secure session closed by the server (status close / timeout), user disconnect()} are injected at EVERY loop iteration index of the run and in "
-    "the middle of every sleep; plus ordered pairs of failure kinds with the second one at every iteration within a window after the first (quick: "
-    "second kind in {server disconnect, user disconnect}, window 2; thorough: all kinds, window 10 and two farther points). "
+    "the middle of every sleep and, for the kinds that are in flight for a few ms, 2 ms before every sleep ends; plus ordered pairs of failure kinds with the second one at every iteration within a window after the first (quick: "
+    "second kind in {server disconnect, user disconnect}, window 1; thorough: all kinds, window 10 and two farther points). "
     "Bounded exhaustive enumeration of single faults (pairs: windowed). UDP and TCP sessions are also run with "
     "ConnectionManager.register_loop() (state changes travel through call_soon_threadsafe, as with the threaded interface). "
     "ConnectionManager alone: every sequence of 1..6 (thorough 7) connection_state_changed() calls over the three states, with "
@@ -62,9 +63,11 @@ TIMEOUT = {"quick": 300, "thorough": 3000}
 
 EPS = 1e-9
 CONFIGS = (("udp", True, False), ("udp", False, False), ("udp", True, True), ("udp", True, "registered-loop"),
+           ("udp", True, "reuse-cycles"), ("udp", False, "reuse-cycles"), ("udp", True, "second-tunnel"),
+           ("udp", False, "second-tunnel"), ("tcp", True, "reuse-cycles"), ("tcp", False, "second-tunnel"),
            ("tcp", True, False), ("tcp", False, False), ("tcp", True, "registered-loop"),
            ("secure", True, False), ("secure", False, False))
-FAULTS_UDP = ("SD", "SD2", "SDL", "SDRE", "SDCR", "SDCD", "HB4", "HB3", "AD2", "AD1", "OOO", "BO", "BOUD", "UD")
+FAULTS_UDP = ("SD", "SD2", "SDL", "SDRE", "SDCR", "SDCD", "OOOL", "HB4", "HB3", "AD2", "AD1", "OOO", "BO", "BOUD", "UD")
 FAULTS_TCP = ("SD", "SD2", "SDL", "SDRE", "SDCR", "SDCD", "HB4", "HB3", "TL", "TLCR", "BO", "BOUD", "UD")
 
 FAULTS_SECURE = ("SD", "SD2", "SDL", "SDRE", "SDCR", "SDCD", "HB4", "HB3", "TL", "TLCR", "SC", "ST", "BO", "BOUD", "UD")
@@ -101,6 +104,9 @@ class Session:
         self.transport = transport
         self.auto = auto
         # third configuration field: False | True (route_back) | "registered-loop" (ConnectionManager.register_loop() mode)
+        # ... | "reuse-cycles" (disconnect()/connect() cycles on the same tunnel object first) | "second-tunnel" (a first tunnel
+        # object is used and disconnected, then a second one on the same XKNX / ConnectionManager runs the session)
+        self.variant = route_back if isinstance(route_back, str) else None
         self.registered = route_back == "registered-loop"
         self.route_back = route_back is True
         self.faults = faults  # list of (kind, iteration, frac)
@@ -128,6 +134,7 @@ class Session:
         self.tunnel = None
         self.xknx = None
         self.injected = []
+        self.first_tunnel = None
         self.k_connected = 0
         gw = self.gw
         gw.hb_policy = self._hb_policy
@@ -331,6 +338,12 @@ class Session:
                 return
             gw.note("fault", fault=kind)
             gw.send_tunnelling_request(200, make_cemi(99).to_knx())
+        elif kind == "OOOL":  # the same, in flight for one latency: may cross a DisconnectRequest of the client
+            if not gw.is_open:
+                self.count("fault_not_applicable")
+                return
+            gw.note("fault", fault=kind)
+            gw.send_tunnelling_request(200, make_cemi(98).to_knx(), delay=gw.latency * 0.6)
         elif kind in ("BO", "BOUD"):  # the gateway / network goes silent for 5 s
             gw.note("fault", fault=kind)
             self.blackout_until = self.loop.time() + 5.0
@@ -377,6 +390,32 @@ class Session:
             self.user_disconnect_returned = True
             self.gw.note("user_disconnect_returned")
 
+    async def user_connect(self, tunnel=None):
+        """The user opens a connection again (same object, or a new tunnel object on the same XKNX)."""
+        if tunnel is not None:
+            self.tunnel = tunnel
+        self.user_disconnect_called = False
+        self.user_disconnect_returned = False
+        self.gw.note("user_connect_called")
+        self.count("user_reconnects")
+        try:
+            await self.tunnel.connect()
+        except CommunicationError:
+            self.count("user_reconnect_failed_recorded")
+
+    def make_tunnel(self):
+        if self.transport == "udp":
+            return UDPTunnel(self.xknx, cemi_received_callback=lambda raw: None, gateway_ip="10.0.0.2",
+                             gateway_port=3671, local_ip="10.0.0.1", route_back=self.route_back,
+                             auto_reconnect=self.auto, auto_reconnect_wait=3)
+        if self.transport == "secure":
+            return SecureTunnel(self.xknx, cemi_received_callback=lambda raw: None, gateway_ip="10.0.0.2",
+                                gateway_port=3671, user_id=SECURE_USER_ID, user_password=SECURE_USER_PASSWORD,
+                                device_authentication_password=SECURE_DEVICE_PASSWORD,
+                                auto_reconnect=self.auto, auto_reconnect_wait=3)
+        return TCPTunnel(self.xknx, cemi_received_callback=lambda raw: None, gateway_ip="10.0.0.2",
+                         gateway_port=3671, auto_reconnect=self.auto, auto_reconnect_wait=3)
+
     # -- the session ------------------------------------------------------------
     async def send(self, tag):
         try:
@@ -394,24 +433,44 @@ class Session:
             await cm.register_loop()  # state changes now travel through call_soon_threadsafe
         cm.register_connection_state_changed_cb(self._state_cb1)
         cm.register_connection_state_changed_cb(self._state_cb2)
-        if self.transport == "udp":
-            self.tunnel = UDPTunnel(self.xknx, cemi_received_callback=lambda raw: None, gateway_ip="10.0.0.2",
-                                    gateway_port=3671, local_ip="10.0.0.1", route_back=self.route_back,
-                                    auto_reconnect=self.auto, auto_reconnect_wait=3)
-        elif self.transport == "secure":
-            self.tunnel = SecureTunnel(self.xknx, cemi_received_callback=lambda raw: None, gateway_ip="10.0.0.2",
-                                       gateway_port=3671, user_id=SECURE_USER_ID, user_password=SECURE_USER_PASSWORD,
-                                       device_authentication_password=SECURE_DEVICE_PASSWORD,
-                                       auto_reconnect=self.auto, auto_reconnect_wait=3)
-        else:
-            self.tunnel = TCPTunnel(self.xknx, cemi_received_callback=lambda raw: None, gateway_ip="10.0.0.2",
-                                    gateway_port=3671, auto_reconnect=self.auto, auto_reconnect_wait=3)
+        self.tunnel = self.make_tunnel()
+        if self.variant == "reuse-cycles":
+            # object reuse: two complete lives of the same tunnel object before the judged session
+            for n in range(2):
+                try:
+                    await self.tunnel.connect()
+                except CommunicationError:
+                    self.count("initial_connect_failed_recorded")
+                await self.send(10 + n)
+                await asyncio.sleep(1 + 75 * n)
+                await self.user_disconnect()
+                await asyncio.sleep(3)  # silence is judged here as well
+                self.user_disconnect_called = self.user_disconnect_returned = False
+                self.gw.note("user_connect_called")
+                self.count("user_reconnects")
+        elif self.variant == "second-tunnel":
+            # a first tunnel object lives and is disconnected; failures are injected from here on, so that late events of
+            # the first object (e.g. the 2 s out-of-order timer) fall into the life of the second one
+            try:
+                await self.tunnel.connect()
+            except CommunicationError:
+                self.count("initial_connect_failed_recorded")
+            self.k_connected = self.inj.now
+            await self.send(20)
+            await asyncio.sleep(1)
+            await self.user_disconnect()
+            self.first_tunnel = self.tunnel
+            self.tunnel = self.make_tunnel()
+            self.user_disconnect_called = self.user_disconnect_returned = False
+            self.gw.note("user_connect_called")
+            self.count("second_tunnel_objects")
         t0 = loop.time()
         try:
             await self.tunnel.connect()
         except CommunicationError:
             self.count("initial_connect_failed_recorded")
-        self.k_connected = self.inj.now
+        if self.variant != "second-tunnel":
+            self.k_connected = self.inj.now
         await self.send(1)
         await asyncio.sleep(max(0.0, t0 + 75 - loop.time()))  # heartbeat at 70 s
         await self.send(2)
@@ -464,7 +523,7 @@ def judge_session(ctx, transport, auto, faults, sample=False, route_back=False):
     applied = [f for f in s.injected]
     for k, v in s.counts.items():
         ctx.count(k, v)
-    ctx.count(f"runs_{transport}_{'auto' if auto else 'noauto'}{'_route_back' if route_back is True else '_registered_loop' if route_back else ''}")
+    ctx.count(f"runs_{transport}_{'auto' if auto else 'noauto'}{'_route_back' if route_back is True else '_' + route_back.replace('-', '_') if route_back else ''}")
     ctx.count("reconnects_started", s.reconnects_started)
     ctx.count("state_callbacks", len(s.cb1))
     if s.driver_error:
@@ -606,40 +665,47 @@ def cm_section(ctx):
 
 def run(ctx):
     ctx.rule = ("baseline session x {udp,tcp} x auto_reconnect {on,off}; every failure kind at every loop iteration k of the run and "
-                "at the middle of every sleep (singles); pairs: (any kind, then SD or UD at k1..k1+2) in quick, all ordered pairs with the second at k1..k1+10, k1+12, k1+30 in thorough; "
+                "at the middle of every sleep (singles); pairs: (any kind, then SD or UD at k1..k1+1) in quick, all ordered pairs with the second at k1..k1+10, k1+12, k1+30 in thorough; "
                 "distinct = (transport, auto, fault kinds, state-callback sequence, reconnects, handshakes)")
     ctx.require("fault_SD", "fault_SD2", "fault_SDL", "fault_SDRE", "server_disconnect_right_after_reconnect", "fault_SDCR", "fault_SDCD", "connect_responses_delayed",
-                "runs_udp_auto_route_back", "runs_udp_auto_registered_loop", "runs_tcp_auto_registered_loop",
+                "runs_udp_auto_route_back", "runs_udp_auto_reuse_cycles", "runs_udp_noauto_reuse_cycles", "runs_udp_auto_second_tunnel",
+                "runs_udp_noauto_second_tunnel", "runs_tcp_auto_reuse_cycles", "runs_tcp_noauto_second_tunnel", "user_reconnects",
+                "second_tunnel_objects", "fault_OOOL", "runs_udp_auto_registered_loop", "runs_tcp_auto_registered_loop",
                 "cm_cases_same_loop", "cm_cases_registered_loop", "cm_calls_issued", "cm_callbacks_delivered", "cm_calls_deduplicated", "fault_OOO", "fault_BO", "fault_BOUD", "frames_swallowed_by_blackout", "fault_HB4", "fault_HB3", "fault_AD2", "fault_AD1", "fault_TL", "fault_TLCR",
                 "fault_UD", "fault_SC", "fault_ST", "runs_secure_auto", "runs_secure_noauto", "reconnects_started", "handshakes_completed", "state_callbacks", "sleep_points_checked",
                 "user_disconnect_returned", "heartbeats_left_unanswered", "acks_dropped", "connect_requests_left_unanswered")
-    window = ctx.scale(2, 10)
+    window = ctx.scale(1, 10)
     i = 0
     with watch_reconnect(), secure_harness(ctx.seed):
         for transport, auto, rb in CONFIGS:
             base = judge_session(ctx, transport, auto, [], sample=True, route_back=rb)
             n_iter = base.iterations
             sleeping = set(base.sleeps)
-            ctx.extra[f"baseline_iterations_{transport}_{'auto' if auto else 'noauto'}{'_rb' if rb is True else '_reg' if rb else ''}"] = n_iter
+            ctx.extra[f"baseline_iterations_{transport}_{'auto' if auto else 'noauto'}{'_rb' if rb is True else '_' + rb if rb else ''}"] = n_iter
             kinds = FAULTS_UDP if transport == "udp" else FAULTS_TCP if transport == "tcp" else FAULTS_SECURE
+            if ctx.quick and transport == "secure":  # quick budget: the kinds specific to the secure session + the core ones
+                kinds = ("SD", "SDRE", "HB4", "TL", "TLCR", "SC", "ST", "BOUD", "UD")
             k0 = base.k_connected  # failures are injected once the user's connect() has returned
             points = [(k, 0.0) for k in range(k0, n_iter)]
-            if not (ctx.quick and transport == "secure" and not auto):  # quick budget: mid-sleep points for secure+auto only
+            if not (ctx.quick and (transport == "secure" or rb in ("reuse-cycles", "second-tunnel"))):  # quick budget
                 points += [(k, 0.5) for k in sorted(sleeping) if k >= k0]
+            # just before the end of every sleep: an event in flight crosses whatever the wake-up starts (e.g. disconnect())
+            crossing = [(k, -0.002) for k in sorted(sleeping) if k >= k0]
             for kind in kinds:
-                for k, frac in points:
+                for k, frac in points + (crossing if kind in ("SDL", "OOOL") else []):
                     i += 1
                     if not ctx.mine(i):
                         continue
                     judge_session(ctx, transport, auto, [(kind, k, frac)], sample=(kind in ("SDCR", "HB4") and k == 20),
                                   route_back=rb)
-            if not (ctx.quick and (transport == "secure" or rb == "registered-loop")):  # these: singles in quick, pairs in thorough
+            if not (ctx.quick and (transport == "secure" or rb)):  # these: singles in quick, pairs in thorough
                 seconds = kinds if window > 2 else ("SD", "UD")
                 far = [k1_off for k1_off in ((12, 30) if window > 2 else ())]
                 for k1 in range(k0, n_iter):
                     for kind1 in kinds:
                         for kind2 in seconds:
-                            for k2 in list(range(k1, k1 + window + 1)) + [k1 + d for d in far]:
+                            w = window if not isinstance(rb, str) else min(window, 3)  # variants: a shorter pair window
+                            for k2 in list(range(k1, k1 + w + 1)) + [k1 + d for d in far]:
                                 i += 1
                                 if not ctx.mine(i):
                                     continue
